@@ -240,5 +240,7 @@ func TestC20Big(t *testing.T) {
 func TestC20Many(t *testing.T) {
 	k := envInt("VERIF_SCALE_S", 1)
 	enumerate(t, "C20", []c20Case{{S: 1200 * k, N: 20000, OutKind: "relative", OutName: "many", FdLimit: 1024}, {S: 3000 * k, N: 8 * 40, OutKind: "default", FdLimit: 1024, Cpus: "0-2"},
-		{S: 1000, N: 8, OutKind: "nested", OutName: "m", FdLimit: 1024, Procs: 1}}, checkC20)
+		{S: 1000, N: 8, OutKind: "nested", OutName: "m", FdLimit: 1024, Procs: 1},
+		// samples larger than 64 MiB (75 MB and 125 MB files)
+		{S: 1, N: 600000000, OutKind: "relative", OutName: "huge"}, {S: 2, N: 1000000000, OutKind: "default", Cpus: "0-2"}}, checkC20)
 }
